@@ -207,7 +207,7 @@ func TestVerifC43(t *testing.T) {
 			}
 			faults := 0
 			for k, v := range s.Stats() {
-				if k == "fault:load-err-before" || k == "fault:load-partial" {
+				if k == "fault:load-err-before" || k == "fault:load-partial" || k == "fault:load-short-then-err" {
 					faults += v
 				}
 			}
